@@ -72,7 +72,9 @@ def shards(tier):
 def _sub_non_months():
     from ..subtypes import I, Num, S, T
 
-    return [S("foo"), S("{jan}"), S("13"), S(""), S("janu"), I(0), I(13), I(-1), Num.ZERO, Num.THIRTEEN, T(("jan",))]
+    from ..subtypes import WithIndex
+
+    return [S("foo"), S("{jan}"), S("13"), S(""), S("janu"), I(0), I(13), I(-1), Num.ZERO, Num.THIRTEEN, T(("jan",)), WithIndex(5), WithIndex(0), WithIndex(3, fail=True)]
 
 
 NON_MONTHS = NON_MONTHS + list(range(-13, 0)) + [14, 24, 112] + ["+3", "-3", "1_2", "0 7", "1\n", "\t2", "\uff13", "0x3", "3e0", "1.", "0b11", "١"]  # what int() / float() would still accept, and wrap-around indices
@@ -170,6 +172,10 @@ def check_subtypes(m, acc):
     from ..subtypes import I, Num, S
 
     vals = [S(str(m)), S("0" + str(m)), S(ABBR[m - 1]), S(ABBR[m - 1].upper()), S(FULL[m - 1]), S(FULL[m - 1].lower()), I(m), Num(m)]
+    import enum
+
+    # members of a str-Enum: strings whose str() / format() are not their text
+    vals += list(enum.Enum("MonthWord", {"A": ABBR[m - 1].capitalize(), "F": FULL[m - 1].upper(), "D": "0" + str(m)}, type=str))
     for v in vals:
         for inplace in (True, False):
             for name, M in MWS:
